@@ -35,19 +35,19 @@ func (c *idleRWC) Close() error {
 }
 
 func TestC08FixFrame(t *testing.T) {
-	fixFrameProperty(t, "C08", "TestC08FixFrame", []string{"message", "message", "message", "identity", "sig-fields", "header-after-forwarding"}, evid.N(25000, 100000))
+	fixFrameProperty(t, "C08", "TestC08FixFrame", []string{"message", "message", "message", "identity", "sig-fields", "header-after-forwarding", "fix-a-copy"}, evid.N(25000, 100000))
 }
 
 // TestC06FixFrameSigns is the signing half of the same scenario under C06: whatever was edited or left alone,
 // a frame passed through FixFrame on a node with an outgoing key verifies under that key at the next hop.
 func TestC06FixFrameSigns(t *testing.T) {
-	fixFrameProperty(t, "C06", "TestC06FixFrameSigns", []string{"message", "identity", "sig-fields", "header-after-forwarding"}, evid.N(6000, 30000))
+	fixFrameProperty(t, "C06", "TestC06FixFrameSigns", []string{"message", "identity", "sig-fields", "header-after-forwarding", "fix-a-copy"}, evid.N(6000, 30000))
 }
 
 func fixFrameProperty(t *testing.T, pid, testName string, editKinds []string, cases int) {
 	rec := evid.New(t, pid, "a received dialect frame is edited (new field values of the same or another message type) and passed to Node.FixFrame, then written; the next hop (with the outgoing key as incoming key when the frame arrived signed) must deliver the edited message; non-trivial = the edit changes the payload; distinct by hash of (input frame, edited payload, key)")
 	if pid == "C08" {
-		rec.Require("signed+outkey", "unsigned", "v1", "type-changed", "edit-identity-signed+outkey", "edit-sig-fields-signed+outkey", "edit-header-after-forwarding")
+		rec.Require("signed+outkey", "unsigned", "v1", "type-changed", "edit-identity-signed+outkey", "edit-sig-fields-signed+outkey", "edit-header-after-forwarding", "edit-fix-a-copy-signed+outkey")
 	} else {
 		rec.Require("signed+outkey", "edit-identity-signed+outkey", "edit-sig-fields-signed+outkey", "edit-header-after-forwarding-signed+outkey")
 	}
@@ -117,6 +117,44 @@ func fixFrameProperty(t *testing.T, pid, testName string, editKinds []string, ca
 		newLay := lay
 		cls := []string{}
 		editKind := rapid.SampledFrom(editKinds).Draw(t, "edit_kind")
+		if editKind == "fix-a-copy" {
+			// a router keeps the received frame to pass it on as it is, and re-stamps an edited copy of it for another
+			// link; fixing the copy must leave the frame it was copied from alone
+			n := nodeFor(nodeKey{dIdx, true, keyd})
+			w0, err := writeOne(fr, di.rw)
+			if err != nil {
+				t.Fatalf("writing the received frame failed: %v", err)
+			}
+			before := append([]byte(nil), w0.all()...)
+			var cp frame.Frame
+			switch ff := fr.(type) {
+			case *frame.V1Frame:
+				c := *ff
+				c.SystemID ^= 0x55
+				cp = &c
+			case *frame.V2Frame:
+				c := *ff
+				c.SystemID ^= 0x55
+				cp = &c
+			}
+			if err := n.FixFrame(cp); err != nil {
+				t.Fatalf("FixFrame failed on a copy of a received %s frame: %v", lay.MsgName, err)
+			}
+			w1, err := writeOne(fr, di.rw)
+			if err != nil {
+				t.Fatalf("writing the received frame failed after its copy was fixed: %v", err)
+			}
+			if string(w1.all()) != string(before) {
+				evid.ReplayNote(pid, testName, fmt.Sprintf("input %x\nforwarded before %x\nforwarded after a copy was fixed %x", in, before, w1.all()))
+				t.Fatalf("a received %s frame goes out as %x; after a copy of it was edited and passed to FixFrame it goes out as %x (input %x)", lay.MsgName, before, w1.all(), in)
+			}
+			c := "edit-fix-a-copy"
+			if f.Signed() && keyd {
+				c += "-signed+outkey"
+			}
+			rec.Case(f.Signed() && keyd, evid.Hash(in, []byte("copy"), []byte{b2i(keyd)}), c)
+			return
+		}
 		if editKind != "message" {
 			// edits that leave message and checksum untouched: FixFrame must still produce a signature that
 			// verifies under the outgoing key (it covers link id, timestamp and key as well)
